@@ -625,7 +625,7 @@ impl SchedSys {
                         // ---- the property: a conformant responder observes a violation ----
                         self.observed += 1;
                         let view = match proto_of(&m) { "hs" => l.w.hs, "ka" => l.w.ka, "ps" => l.w.ps, "bf" => l.w.bf, "cs" => l.w.cs, "tx" => l.w.tx, "ln" => l.w.ln, _ => l.w.lf };
-                        out.viol(format!("nonconformant {} in-state-{} {}", kind(&m), view, if taint { "sent-before-previous-confirmed" } else { "previous-sends-confirmed" }),
+                        out.viol(format!("{} {} in-state-{}", if taint { "send-before-sent" } else { "nonconformant" }, kind(&m), view),
                                  format!("peer {p}: responder view {} received {}", l.w.text(), m));
                     }
                 }
